@@ -182,8 +182,11 @@ def finish(agg, level, coverage, assumptions, floors=()):
         with open(path, "w") as f:
             json.dump({"property": prop, "key": k, "seed": agg.seed, "tier": agg.tier, "repo": os.environ.get("VERIF_REPO", "/repo"),
                        "occurrences": len(vs), "first": vs[:5]}, f, indent=1, default=str)
-        lines.append("VIOLATION property=%s replay=%s" % (prop, path))
-        lines.append("  key=%s  x%d  %s" % (k, len(vs), vs[0]["msg"][:400]))
+        if i < 30:
+            lines.append("VIOLATION property=%s replay=%s" % (prop, path))
+            lines.append("  key=%s  x%d  %s" % (k, len(vs), vs[0]["msg"][:400]))
+        elif i == 30:
+            lines.append("  ... and %d more violation keys (all written to %s/%s-%s-%d-*.json and listed in the evidence file)" % (len(new) - 30, REPLAY_DIR, prop, agg.tier, agg.seed))
         rc = 1
     failed_floors = [d for d, ok in floors if not ok]
     if rc == 0 and (agg.harness_fail or failed_floors):
